@@ -95,7 +95,7 @@ THEOREMS = [
     ]
 ] + (
     # decision tables of is_label_correct / is_result_correct / get_status, regenerated from the source on every run
-    ["PEval.KernelStatus.labelCorrect_table_check", "PEval.KernelStatus.resultCorrect_table_check", "PEval.KernelStatus.status_table_check", "PEval.KernelStatus.labelCorrect_code_table_eq_model", "PEval.KernelStatus.resultCorrect_code_table_eq_model", "PEval.KernelStatus.status_code_table_eq_model", "PEval.KernelStatus.resultCorrect_eq_skeleton", "PEval.KernelStatus.status_eq_skeleton", "PEval.KernelStatus.resultCorrect_eq_skeleton_passfail", "PEval.KernelStatus.status_eq_skeleton_passfail", "PEval.KernelStatus.labelCorrect_code_table_eq_isLabelCorrect", "PEval.KernelStatus.resultCorrect_code_table_eq_isResultCorrect", "PEval.KernelStatus.status_code_table_eq_getStatus", "PEval.KernelStatus.resultCorrect_code_table_eq_passfail", "PEval.KernelStatus.status_code_table_eq_passfail", "PEval.KernelStatus.table_status_tp_sound", "PEval.KernelStatus.table_status_no_gt"]
+    ["PEval.KernelStatus.labelCorrect_table_check", "PEval.KernelStatus.resultCorrect_table_check", "PEval.KernelStatus.status_table_check", "PEval.KernelStatus.labelCorrect_code_table_eq_model", "PEval.KernelStatus.resultCorrect_code_table_eq_model", "PEval.KernelStatus.status_code_table_eq_model", "PEval.KernelStatus.resultCorrect_eq_skeleton", "PEval.KernelStatus.status_eq_skeleton", "PEval.KernelStatus.resultCorrect_eq_skeleton_passfail", "PEval.KernelStatus.status_eq_skeleton_passfail", "PEval.KernelStatus.labelCorrect_code_table_eq_isLabelCorrect", "PEval.KernelStatus.resultCorrect_code_table_eq_isResultCorrect", "PEval.KernelStatus.status_code_table_eq_getStatus", "PEval.KernelStatus.resultCorrect_code_table_eq_passfail", "PEval.KernelStatus.status_code_table_eq_passfail", "PEval.KernelStatus.table_status_tp_sound", "PEval.KernelStatus.table_status_no_gt", "PEval.MatchKernels.valAP_consistent", "PEval.MatchKernels.valPF_consistent"]
 )
 RULE = (
     "seeded histories of 1..6 frames; per frame 0..8 ground truths (car/bicycle/pedestrian/motorbike/unknown/FP-labelled) "
